@@ -56,7 +56,8 @@ func (l Label) String() string {
 	return "?"
 }
 
-// TapeCap bounds the number of draws of one run.
+// TapeCap bounds the number of draws of one run (default; engines with many
+// scheduling decisions ask for more through NewTapeCap).
 const TapeCap = 1 << 17
 
 // Tape is the choice tape. In record mode draws come from a splitmix64 stream
@@ -72,26 +73,28 @@ type Tape struct {
 	end    int // replay: number of recorded values
 	over   bool
 	mark   int
+	cap    int
 }
 
 // NewTape returns a recording tape for seed.
-func NewTape(seed uint64) *Tape {
-	return &Tape{rng: seed, vals: make([]uint32, TapeCap), labs: make([]Label, TapeCap)}
+func NewTape(seed uint64) *Tape { return NewTapeCap(seed, TapeCap) }
+
+// NewTapeCap returns a recording tape with room for n draws.
+func NewTapeCap(seed uint64, n int) *Tape {
+	return &Tape{rng: seed, vals: make([]uint32, n), labs: make([]Label, n), cap: n}
 }
 
 // ReplayTape returns a tape that replays vals.
-func ReplayTape(vals []uint32) *Tape {
-	t := &Tape{replay: true, vals: make([]uint32, TapeCap), labs: make([]Label, TapeCap)}
-	for i, v := range vals {
-		if i >= TapeCap {
-			break
-		}
-		t.vals[i] = v
+func ReplayTape(vals []uint32) *Tape { return ReplayTapeCap(vals, TapeCap) }
+
+// ReplayTapeCap is ReplayTape with room for n draws.
+func ReplayTapeCap(vals []uint32, n int) *Tape {
+	if len(vals) > n {
+		n = len(vals)
 	}
+	t := &Tape{replay: true, vals: make([]uint32, n), labs: make([]Label, n), cap: n}
+	copy(t.vals, vals)
 	t.end = len(vals)
-	if t.end > TapeCap {
-		t.end = TapeCap
-	}
 	return t
 }
 
@@ -117,7 +120,7 @@ func (t *Tape) Int(l Label, n int) int {
 	if n <= 1 {
 		return 0
 	}
-	if t.n >= TapeCap {
+	if t.n >= t.cap {
 		t.over = true
 		return 0
 	}
